@@ -86,6 +86,22 @@ def gen_texts(chk):
             if i + 1 < k:
                 s += rng.choice([b",", b", ", b" , ", b" ,", b",  ", b",\n", b",\t"])
         out.append(s)
+    # argument lists of an exact total length around every power of two (a fixed-size scratch copy of
+    # the list, if there is one, shows at its boundary), the last argument plain or wrapped
+    for total in [15, 16, 17, 31, 32, 33, 63, 64, 65, 127, 128, 129, 255, 256, 257, 511, 512, 513, 1023, 1024, 1025, 4095, 4096, 4097]:
+        for last in (b"last_one", b"box_double(rate)", b"x"):
+            for sep in (b", ", b","):
+                s = b""
+                i = 0
+                while len(s) + len(sep) + len(last) + 12 < total:
+                    s += b"arg_%d" % i + (b"_longer" if i % 3 == 0 else b"") + sep
+                    i += 1
+                pad = total - len(s) - len(last)
+                if pad < 2:
+                    continue
+                s += b"p" * (pad - len(sep)) + sep + last
+                assert len(s) == total, (len(s), total)
+                out.append(s)
     alpha = b"ab d(),\t\n  box_double"
     for _ in range(n // 2):
         out.append(bytes(rng.choice(alpha) for _ in range(rng.choice([1, 2, 3, 5, 8, 13, 30]))))
@@ -93,6 +109,21 @@ def gen_texts(chk):
               b"box_double(box_double(x))", b"box_double(d(x))", b"d(box_double(x))", b"box_double(x", b"box_doublex)", b"box_double"):
         out.append(t)
     return out
+
+
+# what #__VA_ARGS__ can give: no leading or trailing blank, at most one space between tokens
+ITEM = rb"(?:box_double ?\( ?([A-Za-z_][A-Za-z_0-9]*) ?\)|([A-Za-z_][A-Za-z_0-9]*))"
+
+
+def spelled_names(text):
+    """the identifiers of a well-spelled argument list, None when the text is not one"""
+    import re
+    if not re.fullmatch(ITEM + rb"(?: ?, ?" + ITEM + rb")*", text):
+        return None
+    names = [a or b for a, b in re.findall(ITEM, text)]
+    if any(n in (b"box_double", b"d") for n in names):
+        return None
+    return names
 
 
 def check_C16(chk):
@@ -111,8 +142,14 @@ def check_C16(chk):
     rng = chk.rng
     impl_lines, model_lines, meta = [], [], []
 
+    # ---- the tokenizer translated whole from src/parameters.c, run by the extracted CLite interpreter against
+    # Params.names; strings on which they differ are handed to the real tokenizer too
+    import codetie
+    texts = gen_texts(chk)
+    directed = codetie.string_function(chk, "names", codetie.names_inputs(chk, extra=[t for t in texts if 14 < len(t) <= 300]),
+                                       "create_vector_of_names()")[:60]
     # ---- the tokenizer on its own
-    for t in gen_texts(chk):
+    for t in texts + [d for d in directed if d not in texts]:
         impl_lines.append("T " + hx(t)); model_lines.append("(T %s)" % sx(t)); meta.append(("T", t))
     # ---- the stringified text of every generated function is what the generator believes
     for f in fns:
@@ -173,6 +210,16 @@ def check_C16(chk):
                 continue
             if o != m:
                 chk.disagreement("tokenizer on %r: implementation [%s] model [%s]" % (mt[1] if kind == "T" else mt[1]["text"], o, m), rp)
+            if kind == "T":
+                # a text that is a spelling of an argument list (identifiers, some wrapped in box_double(), commas, blanks)
+                # must give exactly those identifiers: the specification side, independent of the model
+                sp = spelled_names(mt[1])
+                if sp is not None:
+                    got = o.split(" ")[1].split("|") if len(o.split(" ")) > 1 and o.split(" ")[1] else []
+                    if got != [hx(n) for n in sp]:
+                        chk.violation("names-of-spelling", "the argument list %r (%d characters) is split into %s; its arguments are %s" % (
+                            mt[1][:80] + (b"..." if len(mt[1]) > 80 else b""), len(mt[1]),
+                            [bytes.fromhex(x).decode("latin-1") if x != "e" else "" for x in got][-3:], [n.decode() for n in sp][-3:]), rp)
             if kind == "TF":
                 f = mt[1]
                 chk.count("spelling:" + f["style"])
